@@ -380,6 +380,14 @@ func RunC13(run *ev.Run) {
 	tier := pairTier(run)
 	RunPairs(run, tier)
 	total := map[string]int{}
+	// (iii) the corpora of the other properties, generation only: every in-process generation runs under recover()
+	for _, fam := range allFamilies {
+		if fam == "recrt" {
+			continue
+		}
+		c := RunWorkers(run, fam, []string{tier, "", "gen-only"}, "")
+		total["evaluations"] += c["evaluations"]
+	}
 	for _, wk := range []string{"rec", "dir"} {
 		skip := ""
 		for round := 0; round < 12; round++ {
